@@ -49,6 +49,7 @@ func runRepScenario(c *Ctx, fl repFlavor, nops int) {
 	replyOf := map[int]reqInfo{} // reply tag -> expected destination
 	replyDead := map[int]bool{}  // reply sent after its pipe had gone
 	rtag := 0
+	ttl := 8
 	look := func() {
 		for _, ev := range splitEvents(lastObs(e)) {
 			switch ev.kind {
@@ -123,6 +124,9 @@ func runRepScenario(c *Ctx, fl repFlavor, nops int) {
 			if c.R.Intn(12) == 0 {
 				kw = 9 // beyond the default TTL: dropped
 			}
+			if ttl > 8 && c.R.Intn(3) == 0 {
+				kw = 8 + c.R.Intn(ttl-7) // a raised hop limit admits deeper routing headers: 8 … ttl+1 words
+			}
 			var words []byte
 			for j := 0; j < kw-1; j++ {
 				w := make([]byte, 4)
@@ -179,6 +183,10 @@ func runRepScenario(c *Ctx, fl repFlavor, nops int) {
 					continue
 				}
 				hdr = h
+				if c.R.Intn(6) == 0 {
+					hdr = h[:4] // only the pipe id: what is left of a one-word header after the last device took its word
+				}
+				h = hdr
 				p := int(binary.BigEndian.Uint32(h[:4]))
 				replyOf[rtag] = reqInfo{p, h[4:]}
 				replyDead[rtag] = removed[p]
@@ -221,7 +229,10 @@ func runRepScenario(c *Ctx, fl repFlavor, nops int) {
 				addPipe()
 			}
 		default:
-			if fl.cooked && cx != 0 && !closedCtx[cx] && c.R.Intn(3) == 0 {
+			if c.R.Intn(4) == 0 {
+				ttl = c.R.Pick(8, 12, 12, 3)
+				e.SetOpt(0, mangos.OptionTTL, fmt.Sprint(ttl), ttl)
+			} else if fl.cooked && cx != 0 && !closedCtx[cx] && c.R.Intn(3) == 0 {
 				e.CloseCtx(cx)
 				closedCtx[cx] = true
 				delete(parkedRecv, cx)
